@@ -206,10 +206,13 @@ structure DidState where
 
 instance : Inhabited DidState := ⟨{}⟩
 
+/-- `dids` etc. are the durable shelves; `cache` is the in-memory `store.conflictedDocuments` map
+    (key = `document.ID.String()`), lost on restart and rebuilt by `loadConflictedDocuments` (`reload`). -/
 structure Store where
   dids : List (String × DidState) := []
   conflictedCount : Nat := 0
   documentCount : Nat := 0
+  cache : List (String × (Doc × Meta)) := []
 
 instance : Inhabited Store := ⟨{}⟩
 
@@ -250,7 +253,11 @@ def add (cfg : Cfg) (s : Store) (e : Event) : Res Store :=
               else (if was then s.conflictedCount - 1 else s.conflictedCount)
     let lastVersion := match st'.chain.getLast? with | some p => p.2.version | none => 0
     let dc := if lastVersion = 0 then s.documentCount + 1 else s.documentCount
-    .ok { dids := alPut s.dids id st', conflictedCount := cc, documentCount := dc }
+    -- addCachedConflict / removeCachedConflict: keyed by the ID of the latest (possibly merged) document
+    let cache := match st'.chain.getLast? with
+      | some p => if now then alPut s.cache p.1.id p else alDel s.cache p.1.id
+      | none => s.cache
+    .ok { dids := alPut s.dids id st', conflictedCount := cc, documentCount := dc, cache := cache }
 
 /-- spec: the chain derived from scratch from a sorted event list. -/
 def derive (cfg : Cfg) (evs : List Event) : Res (List (Doc × Meta)) := applyAll cfg evs none evs
@@ -291,6 +298,71 @@ def resolveChain (rm : Option ResolveMeta) : List (Doc × Meta) → Res (Doc × 
 
 def resolve (s : Store) (id : String) (rm : Option ResolveMeta) : Res (Doc × Meta) :=
   resolveChain rm (s.get id).chain.reverse
+
+/-! ### metadata.go asVDRMetadata, store.go Iterate / Conflicted / loadConflictedDocuments / HistorySinceVersion,
+     finder.go -/
+
+/-- `resolver.DocumentMetadata` as handed out by Resolve / Iterate / Conflicted -/
+structure VMeta where
+  created : Nat
+  updated : Option Nat
+  hash : Hash
+  prevHash : Option Hash
+  sourceTx : List Nat
+  deactivated : Bool
+  deriving DecidableEq, Repr, Inhabited
+
+/-- `documentMetadata.asVDRMetadata`: `Updated` is only set when it differs from `Created`;
+    version and previous transactions are not handed out -/
+def Meta.asVDR (m : Meta) : VMeta :=
+  { created := m.created, updated := if m.created = m.updated then none else some m.updated,
+    hash := m.hash, prevHash := m.prevHash, sourceTx := m.sourceTx, deactivated := m.deactivated }
+
+/-- `loadConflictedDocuments` on a new store object: for every key of the conflicted shelf, the latest version of
+    that DID (if any), cached under the ID of that document -/
+def loadConflicted (dids : List (String × DidState)) : List (String × (Doc × Meta)) :=
+  (dids.filter (fun p => p.2.conflicted)).foldl
+    (fun acc p => match p.2.chain.getLast? with
+      | some l => alPut acc l.1.id l
+      | none => acc) []
+
+/-- restart: the durable shelves survive, the cache is rebuilt -/
+def reload (s : Store) : Store := { s with cache := loadConflicted s.dids }
+
+/-- `Conflicted(fn)`: the cache entry of a DID (the harness asks per DID; Go's map iteration order is irrelevant) -/
+def conflictedOf (s : Store) (id : String) : Option (Doc × VMeta) :=
+  (alGet s.cache id).map (fun p => (p.1, p.2.asVDR))
+
+def strLt (a b : String) : Bool := decide (a < b)
+
+/-- `Iterate(fn)`: the latest shelf in key order (bbolt iterates keys in byte order); per DID the metadata the
+    latest shelf points to and the document stored under that metadata's hash -/
+def iterate (s : Store) : List (Doc × VMeta) :=
+  (sortBy strLt (s.dids.map (·.1))).filterMap (fun k => (s.get k).chain.getLast?.map (fun p => (p.1, p.2.asVDR)))
+
+/-- `Finder.Find(IsActive())` -/
+def findActive (s : Store) : List Doc :=
+  ((iterate s).filter (fun p => !p.2.deactivated)).map (·.1)
+
+structure HistDoc where
+  raw : Hash        -- the document bytes, named by content (= the event's payload hash)
+  created : Nat
+  updated : Nat
+  version : Nat
+  deriving DecidableEq, Repr, Inhabited
+
+def histFrom (created : Nat) : Nat → List Event → List HistDoc
+  | _, [] => []
+  | v, e :: es => { raw := e.payloadHash, created := created, updated := e.sigTime, version := v } :: histFrom created (v + 1) es
+
+/-- `HistorySinceVersion(id, version)` for `version ≥ 0`: the published documents of the DID's event list from
+    index `version` on; `Created` is the first event's signing time -/
+def historySince (st : DidState) (version : Nat) : Res (List HistDoc) :=
+  match st.events with
+  | [] => .err "storage-not-found"
+  | e0 :: _ =>
+    if version > st.events.length - 1 then .ok []
+    else .ok (histFrom e0.sigTime version (st.events.drop version))
 
 def addAll (cfg : Cfg) (s : Store) : List Event → Res Store
   | [] => .ok s
